@@ -64,7 +64,7 @@ class SimFS:
         self.files = {}          # path -> bytearray
         self.bufsize = bufsize
         self.oslog = []          # (seq, path, hid, kind, offset, data, thread)   kind: 'trunc' | 'write'
-        self.apilog = []         # (seq, path, hid, mode, op, offset, length, sha1, thread)
+        self.apilog = []         # (seq, path, hid, mode, op, offset, length, data, thread)
         self.reqlog = []         # (call_id, backend, path, offset, requested, returned, thread)
         self.nhandles = 0
         self.call_id = 0
@@ -138,7 +138,7 @@ class SimFS:
         else:
             buf = io.BufferedWriter(raw, buffer_size=bs)
         h = SimWriteHandle(self, path, hid, mode, buf)
-        self.apilog.append((self._next_seq(), path, hid, mode, 'open', 0, 0, '', _thread_name()))
+        self.apilog.append((self._next_seq(), path, hid, mode, 'open', 0, 0, b'', _thread_name()))
         self.open_handles.append(h)
         return h
 
@@ -239,8 +239,8 @@ class SimWriteHandle:
         self._buf = buf
         self.name = path
 
-    def _log(self, op, off=0, length=0, sha=''):
-        self._fs.apilog.append((self._fs._next_seq(), self._path, self._hid, self.mode, op, off, length, sha,
+    def _log(self, op, off=0, length=0, data=b''):
+        self._fs.apilog.append((self._fs._next_seq(), self._path, self._hid, self.mode, op, off, length, data,
                                 _thread_name()))
 
     @property
@@ -255,7 +255,7 @@ class SimWriteHandle:
         mv = bytes(b) if not isinstance(b, (bytes, bytearray)) else b
         off = self._buf.tell()
         n = self._buf.write(mv)
-        self._log('write', off, len(mv), hashlib.sha1(mv).hexdigest())
+        self._log('write', off, len(mv), bytes(mv))
         return n
 
     def flush(self):
